@@ -84,6 +84,7 @@ void ILLsymboltab_init (
 	h->hashtable = (int *) NULL;
 	h->nametable = (ILLsymbolent *) NULL;
 	h->namelist = (char *) NULL;
+	h->index_ok = 0;
 }
 
 void ILLsymboltab_free (
